@@ -367,6 +367,12 @@ def PSide.buildStage0 (c : Cfg) (mainIdx : List (Nat × HostInfo)) (n : PSide) (
     let hh' := { hh with localIndex := idx, pkt0 := some h, ready := true }
     ({ n2 with pindexes := ainsert idx hh.id n2.pindexes }, hh', { made := [.s1 h idx now v] }, true)
 
+/-- the stage-1 packet goes to every remote of the list (nothing if the list is empty) -/
+def stage0Tx (pkt0 : Option Handle) (rem : List UNode) : List Tx :=
+  match pkt0, rem with
+  | some h, _ :: _ => [Tx.hs h rem]
+  | _, _ => []
+
 /-- handleOutbound(vpnIp, lighthouseTriggered) -/
 def PSide.handleOutbound (c : Cfg) (mainIdx : List (Nat × HostInfo)) (n : PSide) (a : Addr) (trig : Bool)
     (now : Nat) : PSide × Out :=
@@ -388,9 +394,7 @@ def PSide.handleOutbound (c : Cfg) (mainIdx : List (Nat × HostInfo)) (n : PSide
     let changed := rem != hh.lastRemotes
     if trig && !changed then (n.setPending hh, o) else
     let hh := { hh with lastRemotes := rem }
-    let tx := match hh.pkt0, rem with
-      | some h, _ :: _ => [Tx.hs h rem]
-      | _, _ => []
+    let tx := stage0Tx hh.pkt0 rem
     let n := n.setPending hh
     let n := if trig then n else { n with wheel := n.wheel.add a ((c.interval : Int) * hh.counter) }
     (n, o.app { tx := tx })
